@@ -75,3 +75,7 @@ chk("C13","model_checking",
  "explicit-state BFS over the authorisation state of a target user (role, read/write grants, key active, session token) under GRANT / REVOKE / REVOKE KEY / AUTH / session expiry, for nine roots (six roles, three special user ids); every state is realised on the real engine through the TCP listener's own authentication gate + parse + dispatch and probed with 17 command kinds x 10 authentication forms / credential validities; executed => authenticated and permitted",
  "TCP gate driven through hook H7 (HTTP / WebSocket gates not driven); one-directional oracle; reference matrix written from the statement",
  "explicit-state search over a reference authorisation machine with every state replayed against the real gate and dispatcher","authx","DESIGN.md §3 C13")
+chk("C08","exploration",
+ "zones holding every multiset of 3 positions of a 14-value alphabet per kind (plus segments of 1, 3, 11, 12 zones) are planned and written through ZonePlanner::plan + ZoneWriter::write_all; every structure file (zone SuRF, per-zone and per-field membership filters, enum bitmaps, calendar, per-zone time index, context index) is loaded and probed with every alphabet value, absent values and cross-kind literals under every operator; a zone holding a match that is not listed is a violation",
+ "probe keys are built as the range pruner builds them; the per-field temporal calendar is only covered end to end (C02/C16); exact (class -> digest) known findings in known/C08.*.json",
+ "bounded exhaustive input enumeration against a brute-force scan, on the real builders and probes","unitx","DESIGN.md §3 C08")
